@@ -426,7 +426,7 @@ where
                 if b != b'_' {
                     break;
                 }
-                leading_underscores = i + 2;
+                leading_underscores = leading_underscores.max(i + 2);
             }
             name
         }));
